@@ -47,7 +47,7 @@ def is_real(x):
 
 
 def is_num(x):
-    return isinstance(x, (int, Fraction)) or (isz(x) and z3.is_arith(x))
+    return isinstance(x, (int, Fraction)) or (isz(x) and z3.is_arith(x)) or type(x).__name__ == "NanReal"
 
 
 def frac_of_float(f):
@@ -62,6 +62,8 @@ def frac_of_float(f):
 
 def R(x):
     """To a z3 Real term."""
+    if type(x).__name__ == "NanReal":
+        return x.v
     if isz(x):
         if z3.is_real(x):
             return x
@@ -129,6 +131,47 @@ def conc(x):
     return None
 
 
+IEEE_DIV = [False]  # when on: x/0 on symbolic reals is IEEE (0/0 = nan: every comparison False; a/0 = inf: unspecified)
+
+
+class NanReal:
+    """A real that is NaN under `nan` (all comparisons False) and +-inf under `inf` (comparisons unspecified)."""
+
+    def __init__(self, v, nan, inf):
+        self.v, self.nan, self.inf = v, nan, inf
+
+    def __repr__(self):
+        return "NanReal(%s)" % (self.v,)
+
+
+def _nr(x):
+    if isinstance(x, NanReal):
+        return x
+    return NanReal(R(x) if not isinstance(x, (int, Fraction)) else R(x), z3.BoolVal(False), z3.BoolVal(False))
+
+
+def _nr_arith(op, a, b):
+    a, b = _nr(a), _nr(b)
+    v = {"add": lambda x, y: x + y, "sub": lambda x, y: x - y, "mul": lambda x, y: x * y, "div": lambda x, y: x / y}[op](a.v, b.v)
+    nan = z3.Or(a.nan, b.nan)
+    inf = z3.Or(a.inf, b.inf)
+    if op == "mul":
+        # inf * 0 = nan
+        nan = z3.Or(nan, z3.And(a.inf, b.v == 0), z3.And(b.inf, a.v == 0))
+    if op == "div":
+        nan = z3.Or(nan, z3.And(b.v == 0, a.v == 0))
+        inf = z3.Or(inf, z3.And(b.v == 0, a.v != 0))
+    return NanReal(v, z3.simplify(nan), z3.simplify(inf))
+
+
+def _nr_cmp(zop, a, b):
+    a, b = _nr(a), _nr(b)
+    nan = z3.Or(a.nan, b.nan)
+    inf = z3.Or(a.inf, b.inf)
+    unspec = z3.Bool("infcmp!%d" % fresh_id())
+    return z3.And(z3.Not(nan), z3.If(inf, unspec, zop(a.v, b.v)))
+
+
 def _num2(a, b):
     """Coerce a pair for arithmetic: keep Python ints/Fractions if both concrete."""
     if isinstance(a, float):
@@ -155,6 +198,8 @@ def _zz(a, b):
 
 
 def add(a, b):
+    if isinstance(a, NanReal) or isinstance(b, NanReal):
+        return _nr_arith("add", a, b)
     a, b = _num2(a, b)
     if not isz(a) and not isz(b):
         return a + b
@@ -163,6 +208,8 @@ def add(a, b):
 
 
 def sub(a, b):
+    if isinstance(a, NanReal) or isinstance(b, NanReal):
+        return _nr_arith("sub", a, b)
     a, b = _num2(a, b)
     if not isz(a) and not isz(b):
         return a - b
@@ -171,6 +218,8 @@ def sub(a, b):
 
 
 def mul(a, b):
+    if isinstance(a, NanReal) or isinstance(b, NanReal):
+        return _nr_arith("mul", a, b)
     a, b = _num2(a, b)
     if not isz(a) and not isz(b):
         return a * b
@@ -186,6 +235,8 @@ def mul(a, b):
 
 
 def neg(a):
+    if isinstance(a, NanReal):
+        return NanReal(-a.v, a.nan, a.inf)
     (a, _) = _num2(a, 0)
     if not isz(a):
         return -a
@@ -194,6 +245,10 @@ def neg(a):
 
 def div(a, b):
     """True division (result is real). Division by zero is the caller's obligation."""
+    if isinstance(a, NanReal) or isinstance(b, NanReal):
+        return _nr_arith("div", a, b)
+    if IEEE_DIV[0] and isz(b) and not isinstance(conc(b), (int, Fraction)):
+        return _nr_arith("div", a, b)
     a, b = _num2(a, b)
     if not isz(a) and not isz(b):
         if b == 0:
@@ -244,6 +299,8 @@ def powr(a, n, ctx=None):
 
 
 def _cmp(a, b, pyop, zop):
+    if isinstance(a, NanReal) or isinstance(b, NanReal):
+        return _nr_cmp(zop, a, b)
     a, b = _num2(a, b)
     if not isz(a) and not isz(b):
         return pyop(a, b)
